@@ -1,10 +1,12 @@
 import Proofs.BodyNative
+import Proofs.BodyMerged
 /-!
 # C04 — schema-driven body processing accounts for every item exactly once (native bodies)
 
 `NBody.partialContent` / `NBody.content` model `hclsyntax.Body.PartialContent` / `Content`
-(`HclModel/Body/Native.lean`; tied to the code by the `BODY` correspondence).  JSON, merged and
-dynamic-block bodies are covered by the direct oracle only (see DESIGN.md).
+(`HclModel/Body/Native.lean`; tied to the code by the `BODY` correspondence); `MBody.partialContent` /
+`MBody.content` model `hcl.MergeBodies` of native bodies (`HclModel/Body/Merged.lean`, `MERGE` correspondence).
+JSON and dynamic-block bodies are covered by the direct oracle only (see DESIGN.md).
 -/
 namespace HclModel.Body
 variable {α β : Type}
@@ -57,5 +59,110 @@ example :
     let s₂ : Schema := ⟨[⟨"b", false⟩], [⟨"y", 0⟩]⟩
     ((b.partialContent s₁).2.1.content s₂).2 = [] ∧ (b.content (s₁.union s₂)).2 = [] ∧
     ((b.content (s₁.union s₂)).1.blocks.map (·.body)) = [0, 1, 2] := by decide
+
+/-! ## merged bodies (merged.go)
+
+A merged body is the list of its children (`MBody`); `mergedContent mb s partialMode` transcribes
+`mergedBodies.mergedContent`, `MBody.content` / `MBody.partialContent` are its two entry points.  Go returns the
+attributes as a map, so attributes are compared through `findAttr`. -/
+
+/-- Children that do not share attribute names behave like one body holding all their items: exhaustive processing
+    of the merged body finds the same attribute for every name, the same blocks in the same order, and fails
+    exactly when processing the concatenation fails. -/
+theorem merged_eq_concat (mb : MBody α β) (s : Schema) (hf : ∀ b ∈ mb, b.fresh) (hd : MBody.attrsDisjoint mb)
+    (hs : s.nodup) :
+    (∀ n, findAttr n (MBody.content mb s).1.attrs = findAttr n ((MBody.concat mb).content s).1.attrs) ∧
+    (MBody.content mb s).1.blocks = ((MBody.concat mb).content s).1.blocks ∧
+    ((MBody.content mb s).2 = [] ↔ ((MBody.concat mb).content s).2 = []) :=
+  Proofs.merged_eq_concat mb s hf hd hs
+
+/-- An attribute the schema names that is defined by two children is reported as a duplicate, and the value
+    returned is that of the first child defining it (any schema, partial or exhaustive processing). -/
+theorem merged_duplicate_reported (pre rest : MBody α β) (b₁ b₂ : NBody α β) (s : Schema) (partialMode : Bool)
+    (n : String) (a₁ : α)
+    (hf : ∀ b ∈ pre ++ b₁ :: rest, b.fresh)
+    (hn : ∃ as ∈ s.attrs, as.name = n)
+    (hpre : ∀ b ∈ pre, findAttr n b.attrs = none)
+    (h₁ : findAttr n b₁.attrs = some a₁)
+    (hb₂ : b₂ ∈ rest) (h₂ : (findAttr n b₂.attrs).isSome) :
+    MErrKind.duplicateArgument n ∈ (mergedContent (pre ++ b₁ :: rest) s partialMode).2.2 ∧
+    findAttr n (mergedContent (pre ++ b₁ :: rest) s partialMode).1.attrs = some a₁ :=
+  Proofs.merged_duplicate_reported pre rest b₁ b₂ s partialMode n a₁ (fun b hb => (hf b hb).1) hn hpre h₁ hb₂ h₂
+
+/-- A required attribute is reported missing exactly when no child defines it (the children see the relaxed
+    schema and never report it themselves; any schema, partial or exhaustive processing). -/
+theorem merged_required_iff (mb : MBody α β) (s : Schema) (partialMode : Bool) (as : AttrSchema)
+    (hf : ∀ b ∈ mb, b.fresh) (has : as ∈ s.attrs) (hr : as.required = true) :
+    MErrKind.missingRequired as.name ∈ (mergedContent mb s partialMode).2.2 ↔
+      ∀ b ∈ mb, findAttr as.name b.attrs = none :=
+  Proofs.merged_required_iff mb s partialMode as (fun b hb => (hf b hb).1) has hr
+
+/-- Two steps = one step, for merged bodies whose children do not share attribute names: partial processing with
+    `s₁`, then exhaustive processing of the leftover body (a merged body again) with a disjoint `s₂`, finds the
+    same attribute for every name, the same blocks in the same order per block type, and fails exactly when one
+    exhaustive step with `s₁ ∪ s₂` fails.  (Required attributes do not disturb the last part: each is checked in
+    the step whose schema names it, against the same children.) -/
+theorem merged_two_step (mb : MBody α β) (s₁ s₂ : Schema) (hf : ∀ b ∈ mb, b.fresh) (hd : MBody.attrsDisjoint mb)
+    (h₁ : s₁.nodup) (h₂ : s₂.nodup) (hdj : s₁.disjoint s₂) :
+    let p := MBody.partialContent mb s₁
+    let c₂ := MBody.content p.2.1 s₂
+    let c := MBody.content mb (s₁.union s₂)
+    (∀ n, findAttr n c.1.attrs = findAttr n (p.1.attrs ++ c₂.1.attrs)) ∧
+    (∀ ty, c.1.blocks.filter (·.type == ty) = (p.1.blocks ++ c₂.1.blocks).filter (·.type == ty)) ∧
+    (c.2 = [] ↔ (p.2.2 = [] ∧ c₂.2 = [])) :=
+  Proofs.merged_two_step mb s₁ s₂ hf hd h₁ h₂ hdj
+
+/-- A merged body with a single child (in any hidden-name state) behaves like the child: same content, same
+    leftover, the same errors up to order — a missing required attribute is reported by the merged layer instead
+    of the child.  The schema must not name an attribute twice (see `merged_singleton_needs_nodup`). -/
+theorem merged_singleton (b : NBody α β) (s : Schema) (hs : (s.attrs.map (·.name)).Nodup) :
+    (MBody.content [b] s).1 = (b.content s).1 ∧
+    (MBody.content [b] s).2.Perm ((b.content s).2.map .native) ∧
+    (MBody.partialContent [b] s).1 = (b.partialContent s).1 ∧
+    (MBody.partialContent [b] s).2.1 = [(b.partialContent s).2.1] ∧
+    (MBody.partialContent [b] s).2.2.Perm ((b.partialContent s).2.2.map .native) :=
+  ⟨(Proofs.merged_singleton b s false hs).1, (Proofs.merged_singleton b s false hs).2.2,
+   (Proofs.merged_singleton b s true hs).1, (Proofs.merged_singleton b s true hs).2.1,
+   (Proofs.merged_singleton b s true hs).2.2⟩
+
+/-- `merged_singleton` for arbitrary schemas (false) -/
+def merged_singletonFull : Prop :=
+  ∀ (b : NBody Nat Nat) (s : Schema), (MBody.content [b] s).2.Perm ((b.content s).2.map .native)
+
+/-- …refuted: a required attribute named twice by the schema and present in the body is "missing" for the native
+    body (its second schema entry finds the name hidden) but not for the merged body, which looks the name up in
+    the merged result. -/
+theorem merged_singleton_needs_nodup : ¬ merged_singletonFull := by
+  intro h
+  have := (h { attrs := [("a", 0)], blocks := [] } ⟨[⟨"a", true⟩, ⟨"a", true⟩], []⟩).length_eq
+  revert this
+  decide
+
+/-- non-vacuity: three children, `a` defined twice, the required `d` by nobody -/
+example :
+    let mb : MBody Nat Nat := [
+      { attrs := [("a", 0), ("b", 1)], blocks := [⟨"x", ["l"], 0⟩] },
+      { attrs := [("a", 100), ("c", 101)], blocks := [] },
+      { attrs := [], blocks := [⟨"x", ["m"], 200⟩, ⟨"y", [], 201⟩] }]
+    let s : Schema := ⟨[⟨"a", false⟩, ⟨"b", false⟩, ⟨"c", true⟩, ⟨"d", true⟩], [⟨"x", 1⟩]⟩
+    (MBody.content mb s).2 = [.duplicateArgument "a", .native (.unsupportedBlock "y"), .missingRequired "d"] ∧
+    findAttr "a" (MBody.content mb s).1.attrs = some 0 ∧
+    findAttr "c" (MBody.content mb s).1.attrs = some 101 ∧
+    (MBody.content mb s).1.blocks.map (·.body) = [0, 200] ∧
+    (MBody.partialContent mb s).2.2 = [.duplicateArgument "a", .missingRequired "d"] ∧
+    ((MBody.partialContent mb s).2.1.map fun b => b.hiddenAttrs) = [["b", "a"], ["c", "a"], []] := by decide
+
+/-- non-vacuity of the hypotheses of `merged_eq_concat` / `merged_two_step`: disjoint children, error-free runs -/
+example :
+    let mb : MBody Nat Nat := [
+      { attrs := [("a", 0)], blocks := [⟨"x", ["l"], 0⟩] },
+      { attrs := [("b", 100)], blocks := [⟨"y", [], 100⟩] },
+      { attrs := [("c", 200)], blocks := [⟨"x", ["m"], 200⟩] }]
+    let s₁ : Schema := ⟨[⟨"a", true⟩, ⟨"c", false⟩], [⟨"x", 1⟩]⟩
+    let s₂ : Schema := ⟨[⟨"b", true⟩], [⟨"y", 0⟩]⟩
+    (MBody.partialContent mb s₁).2.2 = [] ∧ (MBody.content (MBody.partialContent mb s₁).2.1 s₂).2 = [] ∧
+    (MBody.content mb (s₁.union s₂)).2 = [] ∧ ((MBody.concat mb).content (s₁.union s₂)).2 = [] ∧
+    (MBody.content mb (s₁.union s₂)).1.blocks.map (·.body) = [0, 100, 200] ∧
+    (MBody.content mb (s₁.union s₂)).1.attrs.map (·.2) = [0, 100, 200] := by decide
 
 end HclModel.Body
